@@ -117,6 +117,14 @@ def oracle(c):
             has_stop = "stop=none)" not in lax_impl[-12:]
             if has_fault != has_stop:
                 out.append(("lax-stop-error-presence", {"impl": lax_impl[-300:], "spec": spec[-300:]}))
+    # the incomplete mark of LaxPacketHeaders' transport payload is the one of the IP payload the lax
+    # slicing of the same bytes reports (a transport layer has no length field that could promise more)
+    if c.meta["k2"] == "pkt":
+        lsp, lph = im[1] or "", im[4] or ""
+        m1 = re.search(r"pl=\(num=\d+,frag=\d,src=\w+,w=\(\d+,\d+\),inc=(\d)\)", lsp)
+        m2 = re.search(r"pay=(?:Udp|Tcp|Icmpv4|Icmpv6)\(w=\(\d+,\d+\),inc=(\d)\)", lph)
+        if m1 and m2 and m1.group(1) != m2.group(1):
+            out.append(("lax-headers-incomplete-mark-differs-from-ip-payload", {"lax_sliced": lsp[-300:], "lax_headers": lph[-200:]}))
     for o in c.impl:
         if o is None:
             continue
